@@ -198,7 +198,14 @@ def setFun (σ : St) (name : String) (id : Nat) : St :=
 def setLock (σ : St) (id : Nat) (b : Bool) : St := { σ with locks := σ.locks.set id b }
 
 /-- open a stream: its id is the current number of streams -/
-def addStream (σ : St) : St := { σ with streams := σ.streams ++ [true] }
+def addStream (σ : St) (isOpen : Bool := true) : St := { σ with streams := σ.streams ++ [isOpen] }
+
+/-- `:direction :probe` among the evaluated options of `with-open-file` / `open`: the file is opened and closed at
+once, the variable is bound to a closed stream -/
+def probeDirection : List Obj → Bool
+  | .sym ":direction" :: .sym ":probe" :: _ => true
+  | _ :: _ :: rest => probeDirection rest
+  | _ => false
 
 def closeStream (σ : St) (id : Nat) : St := { σ with streams := σ.streams.set id false }
 
@@ -228,7 +235,7 @@ def catchRet (id : Nat) (r : Res) : Res :=
 -- primitives (ordinary functions: called with evaluated arguments)
 
 inductive Prim where
-  | vtr | vheld | vopen | add | sub | mul | inc | dec | lt | gt | le | ge | numEq
+  | vtr | vheld | vopen | close | add | sub | mul | inc | dec | lt | gt | le | ge | numEq
   | eql | equal | cons | car | cdr | list | not | length | div
   deriving DecidableEq, Repr, Inhabited
 
@@ -236,6 +243,7 @@ def primOf : String → Option Prim
   | "vtr" => some .vtr
   | "vheld" => some .vheld
   | "vopen" => some .vopen
+  | "close" => some .close
   | "+" => some .add
   | "-" => some .sub
   | "*" => some .mul
@@ -301,6 +309,12 @@ def applyPrim (p : Prim) (vs : List Obj) (σ : St) : Res :=
   | .vopen, [.stream id] =>
     match σ.streams[id]? with
     | some b => (.val [ofBool b], σ)
+    | none => (.err typeError, σ)
+  -- `(close stream)`: an open stream is closed (value t); closing a closed stream changes nothing (value nil)
+  | .close, [.stream id] =>
+    match σ.streams[id]? with
+    | some true => (.val [.t], closeStream σ id)
+    | some false => (.val [.nil], σ)
     | none => (.err typeError, σ)
   | .add, vs => match ints vs with
     | some is => numResult σ (is.foldl (· + ·) 0)
@@ -890,15 +904,17 @@ def stepForm (ρ : Env) (head : String) (a : List Obj) (σ : St) : Res :=
       | .err cls => rec (.form (pushFrame ρ σ1.frames.length) onrec) (addFrame σ1 [(x, .cond cls)])
       | o => (o, σ1))
   -- `(with-open-file (sym path option…) form…)`: path and options are evaluated left to right, the stream is
-  -- opened and bound to `sym` in a new frame, and closed when the body is left — on every path.
+  -- opened and bound to `sym` in a new frame, and closed when the body is left — on every path, whatever the body did to
+  -- the stream (closing a stream the body closed already, or a `:direction :probe` stream, is a no-op: the outcome
+  -- of the body stays the outcome of the form).
   | .withOpenFile, spec :: body =>
     match listOf spec with
     | some (.sym x :: path :: opts) =>
       bindV (rec (.args ρ (path :: opts)) σ) (fun vs σ1 =>
         match vs with
-        | .str _ :: _ =>
+        | .str _ :: ovs =>
           andThen (rec (.seq (pushFrame ρ σ1.frames.length) body)
-              (addFrame (addStream σ1) [(x, .stream σ1.streams.length)]))
+              (addFrame (addStream σ1 (!probeDirection ovs)) [(x, .stream σ1.streams.length)]))
             (fun o σ2 => (o, closeStream σ2 σ1.streams.length))
         | _ => (.err typeError, σ1))
     | _ => (.err typeError, σ)
